@@ -11,3 +11,7 @@ def c02(ctx, rep):
 
 def c03(ctx, rep):
     pass
+
+
+def c19(ctx, rep):
+    pass
